@@ -574,7 +574,7 @@ class Lexer:
                             source=self.source,
                             template=template_string,
                             start=start,
-                            stop=self.pos,
+                            stop=self.pos - 1,  # Like a plain string, without the quotes.
                         )
                     )
 
@@ -1071,13 +1071,15 @@ class Lexer:
             if not self.accept_token(self.expression):
                 if match := self.RE_TAG_END.match(self.source, self.pos):
                     self.wc.append(self.WC_MAP[match.group(1)])
+                    # The last line statement stops where the end of the tag starts.
+                    statement_stop = self.pos
                     self.pos += match.end() - match.start()
                     self.ignore()
                     self.line_statements.append(
                         TagToken(
                             type_=TokenType.TAG,
                             start=self.line_start,
-                            stop=self.pos,
+                            stop=statement_stop,
                             wc=self.WC_DEFAULT,
                             name=self.tag_name,
                             expression=self.expression,
